@@ -11,6 +11,7 @@ structure DState where
   session : Drv.Session.St := {}
   broker : Drv.Broker.St := {}
   bc : Drv.BC.St := {}
+  service : Drv.Service.St := {}
 
 def dispatch (st : DState) (line : String) : DState × String :=
   let toks := (line.splitOn " ").filter (· ≠ "")
@@ -28,6 +29,10 @@ def dispatch (st : DState) (line : String) : DState × String :=
   | "bc" :: rest =>
     match Drv.BC.handle st.bc rest with
     | some (t, out) => ({ st with bc := t }, out)
+    | none => (st, "bad-op")
+  | "sv" :: rest =>
+    match Drv.Service.handle st.service rest with
+    | some (t, out) => ({ st with service := t }, out)
     | none => (st, "bad-op")
   | "sess" :: rest =>
     match Drv.Session.handle st.session rest with
